@@ -45,6 +45,7 @@ CHECKS = {
         exhaustive_note="all k! construction orders for k <= 6 options of each drawn option set",
     ),
     "C17": dict(
+        min_counters=['setget.ok', 'result.wf', 'result.default'],
         title="DHCPv4 typed accessors agree with the raw option bytes",
         stages=[dict(name="acc", shards=S16, timeout={"quick": 600, "thorough": 3000})],
         rule="for each of the 30 typed accessors of *DHCPv4 (method set checked by reflection; unmodelled ones are listed) and EVERY raw value length 0..64: fills {zeros, 0xFF, counting, small values} "
@@ -71,6 +72,7 @@ CHECKS = {
         assumptions=["an option present with a non-nil empty slice is normalised to the decoder's form (nil) before the call"],
     ),
     "C02": dict(
+        min_counters=['edited_values', 'in_place_edits'],
         title="DHCPv6 encode->decode preserves messages, relay chains and every option type",
         stages=[dict(name="rt", shards=S16, timeout={"quick": 900, "thorough": 3600})],
         rule="generated values: Message (any non-relay type octet) or relay chain of depth 0..8, 0..20 options per level from every typed option code (set discovered at run time with "
@@ -114,6 +116,7 @@ CHECKS = {
         assumptions=["hlen > 16 is re-encoded as the clipped length (chaddr bytes equal): treated as part of 'equal message'"],
     ),
     "C16": dict(
+        min_counters=['reply_levels_updated_after_build', 'chains_with_arbitrary_hop_counts'],
         title="DHCPv6 builders and relay encapsulation preserve identity and nesting",
         stages=[dict(name="bld", shards=S16, timeout={"quick": 900, "thorough": 3600})],
         rule="(a) relay cases: an inner message of any type with a random subset of {client-id, server-id, IA_NA (1 or 2), IA_PD, rapid-commit, vendor class}, wrapped by EncapsulateRelay into a chain of depth 1..16 "
@@ -128,6 +131,7 @@ CHECKS = {
         assumptions=["which message types are 'wrong' for the reply builder follows RFC 8415 section 18.3 (Solicit only with rapid commit; Request, Confirm, Renew, Rebind, Release, Information-request)"],
     ),
     "C19": dict(
+        min_counters=['failed_decodes_into_a_parsed_set', 'reparse_sequences', 'edit.kind7'],
         title="Domain-name label encoding round-trips and decoding follows RFC 1035",
         stages=[dict(name="lbl", shards=S16, timeout={"quick": 900, "thorough": 3600})],
         rule="(a) EVERY byte string over the alphabet {00,01,02,03,3f,40,'a',c0,c1} up to length 6 (quick) / 8 (thorough); (b) generated lists of 0..8 names x 1..8 labels x 1..63 arbitrary non-dot bytes (<= 255 octets): "
@@ -142,6 +146,7 @@ CHECKS = {
         exhaustive_note="all byte strings over the 9-symbol alphabet up to the stated length",
     ),
     "C18": dict(
+        min_counters=['gray_sequences', 'overlapping_writes_checked', 'sequence_writes_checked', 'passing_read_faults_injected', 'frames_with_all_ones_udp_checksum', 'datagrams_delivered'],
         title="Raw UDP connection emits valid IPv4/UDP frames and reads only its own",
         stages=[dict(name="frm", shards=S16, timeout={"quick": 600, "thorough": 3000})],
         rule="write side: EVERY payload length 0..1500 x 6 patterns {zeros, 0xFF, ffff0001 carry stress, alternating, 2 x random}, source/destination addresses {0.0.0.0, 255.255.255.255, random; 4- and 16-byte forms; "
@@ -157,6 +162,7 @@ CHECKS = {
         exhaustive_note="all payload lengths 0..1500 on the write side",
     ),
     "C03": dict(
+        min_counters=['conc.observer_invocations', 'observer_invocations', 'conc.cold_start_decodes'],
         title="No input can crash decoding or any read-only use of a decoded message",
         stages=[dict(name="crash", shards=S16, timeout={"quick": 1200, "thorough": 7200}),
                 dict(name="checkptr", race=True, shards={"quick": 4, "thorough": 8}, timeout={"quick": 1200, "thorough": 7200}, env={"VERIF_SAMPLE": "8"}),
@@ -178,6 +184,7 @@ CHECKS = {
         exhaustive_note="all byte strings of length <= 2 for each entry point",
     ),
     "C08": dict(
+        min_counters=['live_encodings_compared', 'observer_results_compared'],
         title="Decoded messages own their memory; encoded output is a fresh buffer",
         stages=[dict(name="own", shards=S16, timeout={"quick": 1200, "thorough": 7200})],
         rule="accepted inputs: generated DHCPv6 messages/relay chains over every typed option (per-code hit counts in evidence), hand-built name-bearing messages (domain search list, FQDN, NTP FQDN; compressed, "
@@ -191,6 +198,7 @@ CHECKS = {
         assumptions=["observers as enumerated by harness/obs (mutators excluded)"],
     ),
     "C20": dict(
+        min_counters=['subjects_reread_after_another_value', 'exhaustive_sequences'],
         title="Reading or printing a message never changes it",
         stages=[dict(name="pure", shards=S16, timeout={"quick": 1200, "thorough": 7200}),
                 dict(name="race", race=True, shards={"quick": 8, "thorough": 16}, timeout={"quick": 1200, "thorough": 7200})],
@@ -207,6 +215,7 @@ CHECKS = {
         exhaustive_note="all sequences of <= 3 read-only calls for every subject with <= 12 operations",
     ),
     "C09": dict(
+        min_counters=['measured_after_a_large_datagram'],
         title="Decoding cost is bounded: linear size, at most quadratic work",
         stages=[dict(name="cost", shards=S16, timeout={"quick": 1800, "thorough": 7200})],
         parallel=8, slow_rerun_limit=300,
@@ -221,6 +230,7 @@ CHECKS = {
         assumptions=["d is the nesting depth reported by the independent reference parser (1 for DHCPv4)", "TotalAlloc is cumulative and unaffected by GC, which stays enabled"],
     ),
     "C12": dict(
+        min_counters=['scenarios_with_a_read_fault', 'seq.transmissions_checked', 'transmissions_checked'],
         title="Retransmission follows the configured schedule exactly",
         stages=[dict(name="sched", shards={"quick": 8, "thorough": 16}, timeout={"quick": 900, "thorough": 3600})],
         rule="full grid, both clients (real nclient4/nclient6 over a scripted PacketConn inside testing/synctest bubbles): T in {1ms,10ms,250ms,5s} (+ {3ns,7ms,100ms,1s,64s} thorough) x n in {-1,0,1..6} x request size "
@@ -233,6 +243,7 @@ CHECKS = {
         exhaustive_note="the whole configuration grid is enumerated on every run",
     ),
     "C11": dict(
+        min_counters=['scenarios_with_a_read_fault', 'followup_calls_checked', 'double_close_scenarios', 'slow_matcher_timeouts', 'wfail.scenarios', 'burst.datagrams'],
         title="Client calls always complete: timeout, cancellation, Close and cleanup",
         stages=[dict(name="grid", shards={"quick": 8, "thorough": 16}, timeout={"quick": 900, "thorough": 3600}),
                 dict(name="stress", run="TestStress", race=True, shards={"quick": 8, "thorough": 16}, timeout={"quick": 900, "thorough": 5400})],
@@ -250,6 +261,7 @@ CHECKS = {
         exhaustive_note="thorough tier enumerates the whole grid",
     ),
     "C10": dict(
+        min_counters=['burst.datagrams', 'wfail.scenarios', 'stress.delivered.matching', 'steps'],
         title="A client call only ever returns a response to its own transaction",
         stages=[dict(name="model", shards={"quick": 8, "thorough": 16}, timeout={"quick": 900, "thorough": 3600}),
                 dict(name="stress", run="TestStress", race=True, shards={"quick": 8, "thorough": 16}, timeout={"quick": 900, "thorough": 5400})],
@@ -268,6 +280,7 @@ CHECKS = {
         assumptions=["script events never coincide with a try deadline (advances are multiples of 10 ms + 1 ns)", "all calls of one script share the client's try count"],
     ),
     "C13": dict(
+        min_counters=['datagrams_injected', 'transmissions_decoded', 'v6.outcome.request-reply'],
         title="Lease acquisition follows the DHCP exchange rules for every server behaviour",
         stages=[dict(name="xchg", shards=S16, timeout={"quick": 900, "thorough": 5400})],
         rule="scripted servers (0..3) as reaction tables over the client's own messages, played in virtual time behind the real nclient4 / nclient6: to DISCOVER -> {OFFER, duplicate OFFER, wrong-xid OFFER, wrong-hardware-address "
@@ -285,6 +298,7 @@ CHECKS = {
         exhaustive_note="all reaction tables with <= 2 servers and one reaction per phase (v4), all one/two-reaction SOLICIT tables (v6)",
     ),
     "C14": dict(
+        min_counters=['handler_invocations', 'real_socket_datagrams', 'stop.close-in-read', 'stop.read-error'],
         title="Servers dispatch each valid datagram exactly once and survive bad ones",
         stages=[dict(name="serve", race=True, shards=S16, timeout={"quick": 900, "thorough": 5400})],
         race_is_violation=True, slow_rerun_limit=400,
